@@ -2,6 +2,7 @@ package core
 
 import (
 	"fmt"
+	"go/token"
 	"go/types"
 	"regexp"
 	"sort"
@@ -183,6 +184,7 @@ func EnumerateDecisions(p *Program, fn *ssa.Function, opts DecisionOpts) (paths 
 		events   []string
 		allocVal map[*ssa.Alloc]ssa.Value
 		version  map[string]int // atoms invalidated by a store to a place they mention
+		indexVal map[*ssa.Phi]int64 // range loops over a fixed list: index of the current iteration
 	}
 	clone := func(s *state) *state {
 		n := &state{assign: map[string]bool{}, visits: map[*ssa.BasicBlock]int{}, phiEdge: map[*ssa.Phi]ssa.Value{}, backUsed: map[edge]bool{}, eqTrue: map[string]string{}}
@@ -190,6 +192,10 @@ func EnumerateDecisions(p *Program, fn *ssa.Function, opts DecisionOpts) (paths 
 			n.eqTrue[k] = v
 		}
 		n.events = append([]string{}, s.events...)
+		n.indexVal = map[*ssa.Phi]int64{}
+		for k, v := range s.indexVal {
+			n.indexVal[k] = v
+		}
 		n.version = map[string]int{}
 		for k, v := range s.version {
 			n.version[k] = v
@@ -310,6 +316,7 @@ func EnumerateDecisions(p *Program, fn *ssa.Function, opts DecisionOpts) (paths 
 		canon.PhiEdge = st.phiEdge
 		canon.PhiName = phiName
 		canon.AllocVal = st.allocVal
+		canon.IndexVal = st.indexVal
 		for _, in := range b.Instrs {
 			// results spilled to locals because of a defer: remember the last store per local
 			if sto, ok := in.(*ssa.Store); ok {
@@ -361,6 +368,42 @@ func EnumerateDecisions(p *Program, fn *ssa.Function, opts DecisionOpts) (paths 
 				atom += strings.Repeat("′", v)
 			}
 			body, lc := isLoopControl(b)
+			if lc && (opts.IterateAt == nil || loopHeaderOf(b) != opts.IterateAt) {
+				// `for .. range <fixed list>`: the loop is walked element by element with the
+				// element known (a table-driven chain of tests reads like the chain written out)
+				if ph, n, ok := fixedRangeLoop(canon, last.Cond); ok && n <= 12 {
+					k := int64(0)
+					if cur, seen := st.indexVal[ph]; seen {
+						k = cur + 1
+					}
+					// a fresh iteration: the per-path loop bounds apply within one iteration only
+					for blk := range body {
+						delete(st.visits, blk)
+					}
+					for e := range st.backUsed {
+						if body[e.from] {
+							delete(st.backUsed, e)
+						}
+					}
+					if k < int64(n) {
+						st.indexVal[ph] = k
+						for i, s2 := range b.Succs {
+							if body[s2] {
+								walk(b.Succs[i], b, st)
+								return
+							}
+						}
+					}
+					delete(st.indexVal, ph)
+					for i, s2 := range b.Succs {
+						if !body[s2] {
+							walk(b.Succs[i], b, st)
+							return
+						}
+					}
+					return
+				}
+			}
 			if lc && opts.IterateAt != nil && loopHeaderOf(b) == opts.IterateAt {
 				// the analysed loop: entering the body is unconditional in iteration mode,
 				// leaving it ends the path
@@ -452,11 +495,51 @@ func EnumerateDecisions(p *Program, fn *ssa.Function, opts DecisionOpts) (paths 
 	if opts.IterateAt != nil {
 		startBlock = opts.IterateAt
 	}
-	walk(startBlock, nil, &state{version: map[string]int{}, assign: map[string]bool{}, visits: map[*ssa.BasicBlock]int{}, phiEdge: map[*ssa.Phi]ssa.Value{}, backUsed: map[edge]bool{}, eqTrue: map[string]string{}, allocVal: map[*ssa.Alloc]ssa.Value{}})
+	walk(startBlock, nil, &state{indexVal: map[*ssa.Phi]int64{}, version: map[string]int{}, assign: map[string]bool{}, visits: map[*ssa.BasicBlock]int{}, phiEdge: map[*ssa.Phi]ssa.Value{}, backUsed: map[edge]bool{}, eqTrue: map[string]string{}, allocVal: map[*ssa.Alloc]ssa.Value{}})
 	if overflow {
 		return paths, atoms, fmt.Errorf("more than %d decision paths in %s", opts.MaxPaths, fn)
 	}
 	return paths, atoms, nil
+}
+
+// fixedRangeLoop recognises the test of a range loop over a list with known content
+// (index+1 < len(list)) and returns the index phi and the number of elements.
+func fixedRangeLoop(c *Canon, cond ssa.Value) (*ssa.Phi, int, bool) {
+	b, ok := cond.(*ssa.BinOp)
+	if !ok || b.Op != token.LSS {
+		return nil, 0, false
+	}
+	ph, plus := rangeIndexOf(b.X)
+	if ph == nil || !plus {
+		return nil, 0, false
+	}
+	// a range index: starts at -1 and is advanced by one
+	nInit := 0
+	for _, e := range ph.Edges {
+		if k0, isC := ConstInt(e); isC && k0 == -1 {
+			nInit++
+		} else if e != b.X {
+			return nil, 0, false
+		}
+	}
+	if nInit != 1 {
+		return nil, 0, false
+	}
+	call, ok := b.Y.(*ssa.Call)
+	if !ok {
+		return nil, 0, false
+	}
+	if bi, isB := call.Call.Value.(*ssa.Builtin); !isB || bi.Name() != "len" || len(call.Call.Args) != 1 {
+		return nil, 0, false
+	}
+	saved := c.IndexVal
+	c.IndexVal = nil
+	elems, fixed := FixedListElems(c.Of(call.Call.Args[0]))
+	c.IndexVal = saved
+	if !fixed {
+		return nil, 0, false
+	}
+	return ph, len(elems), true
 }
 
 // constCond evaluates a branch condition that is a constant on the current path.
